@@ -112,6 +112,149 @@ fn conc_check(r: &RunResult, cc: &ConcCase) -> Report {
   rep
 }
 
+// ---------------------------------------------------------------------------------------
+// re-entrancy from the *outer* callback of window_with_count / group_by (the callback that
+// receives the inner observable), and from scheduler tasks
+
+#[derive(Clone, Debug, serde::Serialize, serde::Deserialize)]
+pub struct GroupCase {
+  /// 0 = group_by(x mod k), 1 = window_with_count(k)
+  pub op: u8,
+  pub k: u8,
+  pub items: Vec<i64>,
+  /// what the outer callback does on the n-th inner observable: 0 nothing, 1 emit an item
+  /// into the source, 2 complete the source, 3 unsubscribe the outer subscription
+  pub outer_action: u8,
+  pub outer_at: u8,
+  pub outer_value: i64,
+  /// what the inner callback does on its first item: as above
+  pub inner_action: u8,
+  pub inner_value: i64,
+  pub kind: u8,
+}
+
+fn group_strategy(_ctx: &Ctx) -> BoxedStrategy<GroupCase> {
+  (0u8..=1, 1u8..=3, prop::collection::vec(0i64..6, 1..=5), 0u8..=3, 0u8..=2, 0i64..6, 0u8..=3, 0i64..6, 0u8..=2)
+    .prop_map(|(op, k, items, outer_action, outer_at, outer_value, inner_action, inner_value, kind)| GroupCase {
+      op,
+      k,
+      items,
+      outer_action,
+      outer_at,
+      outer_value,
+      inner_action,
+      inner_value,
+      kind,
+    })
+    .boxed()
+}
+
+fn group_check(_ctx: &Ctx, c: &GroupCase) -> Report {
+  use crate::val::{CaseCtx, P, V};
+  use rx_inst::prelude::*;
+  use std::sync::atomic::{AtomicUsize, Ordering};
+  use std::sync::{Arc, Mutex};
+  let c2 = c.clone();
+  let progress = Arc::new(Mutex::new(String::new()));
+  let p2 = progress.clone();
+  let cfg = arx_rt::Config { schedule: Default::default(), max_steps: 60_000, fuel: 60_000 };
+  let out = arx_rt::run(cfg, move || {
+    let ctx = CaseCtx::new();
+    // the source: a Subject / BehaviorSubject / ReplaySubject the callbacks can call back into
+    let subject = rx_inst::subjects::subject::Subject::<V>::new();
+    let behavior = rx_inst::subjects::behavior_subject::BehaviorSubject::<V>::new(V::new(&ctx, P::I(0)));
+    let replay = rx_inst::subjects::replay_subject::ReplaySubject::<V>::new();
+    let kind = c2.kind;
+    let (s1, b1, r1) = (subject.clone(), behavior.clone(), replay.clone());
+    let push = Arc::new(move |ev: Option<V>| match (kind, ev) {
+      (0, Some(v)) => s1.next(v),
+      (0, None) => s1.complete(),
+      (1, Some(v)) => b1.next(v),
+      (1, None) => b1.complete(),
+      (_, Some(v)) => r1.next(v),
+      (_, None) => r1.complete(),
+    });
+    let source: Observable<'static, V> = match kind {
+      0 => subject.observable(),
+      1 => behavior.observable(),
+      _ => replay.observable(),
+    };
+    let k = c2.k.max(1);
+    let grouped: Observable<'static, Observable<'static, V>> = if c2.op == 0 {
+      source.group_by(move |v: V| v.p.as_i64().rem_euclid(k as i64))
+    } else {
+      source.window_with_count(k as usize)
+    };
+    let outer_sub: Arc<Mutex<Option<Subscription<'static>>>> = Arc::new(Mutex::new(None));
+    let n_outer = Arc::new(AtomicUsize::new(0));
+    let (push_o, osub, ctx_o, c3) = (push.clone(), outer_sub.clone(), ctx.clone(), c2.clone());
+    let act = Arc::new(move |action: u8, value: i64, push: &Arc<dyn Fn(Option<V>) + Send + Sync>, osub: &Arc<Mutex<Option<Subscription<'static>>>>, ctx: &Arc<CaseCtx>| {
+      arx_rt::burn(1);
+      match action {
+        1 => push(Some(V::new(ctx, P::I(value)))),
+        2 => push(None),
+        3 => {
+          let s = osub.lock().unwrap().clone();
+          if let Some(s) = s {
+            s.unsubscribe();
+          }
+        }
+        _ => {}
+      }
+    });
+    let push_dyn: Arc<dyn Fn(Option<V>) + Send + Sync> = push_o;
+    let (act_o, push_dyn_o) = (act.clone(), push_dyn.clone());
+    // the inner reaction fires once per case (a reaction per window would make
+    // window_with_count(1) an endless loop of the scenario's own making)
+    let first = Arc::new(AtomicUsize::new(0));
+    let sub = grouped.subscribe(
+      move |inner: Observable<'static, V>| {
+        let n = n_outer.fetch_add(1, Ordering::SeqCst);
+        let first = first.clone();
+        let (act_i, push_i, osub_i, ctx_i, c4) = (act_o.clone(), push_dyn_o.clone(), osub.clone(), ctx_o.clone(), c3.clone());
+        inner.subscribe(
+          move |_v: V| {
+            if first.fetch_add(1, Ordering::SeqCst) == 0 {
+              act_i(c4.inner_action, c4.inner_value, &push_i, &osub_i, &ctx_i);
+            }
+          },
+          |_e| {},
+          || {},
+        );
+        if n == c3.outer_at as usize {
+          act_o(c3.outer_action, c3.outer_value, &push_dyn_o, &osub, &ctx_o);
+        }
+      },
+      |_e| {},
+      || {},
+    );
+    *outer_sub.lock().unwrap() = Some(sub);
+    for (i, v) in c2.items.iter().enumerate() {
+      *p2.lock().unwrap() = format!("pushing item #{} ({})", i, v);
+      push_dyn(Some(V::new(&ctx, P::I(*v))));
+    }
+    *p2.lock().unwrap() = "completing".into();
+    push_dyn(None);
+    *p2.lock().unwrap() = "done".into();
+  });
+  let mut rep = Report::ok();
+  let prog = progress.lock().unwrap().clone();
+  rep.sample = Some(format!("{:?} => {} ({})", c, out.describe(), prog));
+  rep.classes.push(format!("op:{}", if c.op == 0 { "group_by" } else { "window_with_count" }));
+  rep.classes.push(format!("outer-action:{}", c.outer_action));
+  rep.classes.push(format!("inner-action:{}", c.inner_action));
+  rep.nontrivial = c.outer_action != 0 || c.inner_action != 0;
+  use arx_rt::Kind::*;
+  match out.kind {
+    Done | Quiescent if out.main_finished() => {}
+    Panic => {}
+    _ => {
+      rep.fail = Some(format!("{} while {} | {:?}", out.describe(), prog, c));
+    }
+  }
+  rep
+}
+
 pub fn properties() -> Vec<Property> {
   vec![Property {
     id: "C07",
@@ -123,6 +266,7 @@ pub fn properties() -> Vec<Property> {
     subs: vec![
       mk_sub("seq", (1500, 30_000), |ctx| seq_strategy(seq_cfg(ctx, false)), seq_check),
       mk_sub("reentrant", (1500, 30_000), |ctx| seq_strategy(seq_cfg(ctx, true)), seq_check),
+      mk_sub("reentrant_groups", (1500, 30_000), group_strategy, group_check),
       mk_sub("conc_unsub", (400, 8_000), conc::c05_plain_strategy, |_ctx, c: &conc::C05Case| conc_check(&run_cc(&c.cc, 100), &c.cc)),
       mk_sub("conc_sched", (300, 6_000), |ctx| conc::c09_strategy(ctx, false), |_ctx, c: &conc::C09Case| conc_check(&run_cc(&c.cc, 5_000), &c.cc)),
       mk_sub("conc_combine", (400, 8_000), conc::c11_strategy, |_ctx, c: &conc::C11Case| conc_check(&run_cc(&c.cc, 2_000), &c.cc)),
